@@ -90,7 +90,7 @@ CHECKS = {
  "C17": ("Lean model of the serde glue: Serialize = the Display model of C04, Deserialize of strings and of arbitrary-precision JSON numbers = the parser model of C05 on the literal text (digit for "
          "digit), the JSON-number adapters = serde_json's number grammar (recogniser) + the zero special case + the configured scale limit; integer/float tokens = exact conversions. Kernel-checked for "
          "ALL storable decimals: C17_string_roundtrip (from_str(Display d) is an equal decimal, and the identical digits and scale whenever the scale is non-negative), C17_jsonnum_roundtrip (the "
-         "adapters' text reads back as an equal decimal whenever the scale respects the limit), C17_jsonnum_limit (beyond the limit: an error), C17_jsonnum_limit_iff (the scale-limit test decides acceptance completely: accepted with exactly the parsed pair iff within the limit or the limit is off) and C17_jsonnum_reject (unparsable text refused under every limit), C17_json_grammar_partial (the adapter's text is inside the JSON number grammar for every integer (scale <= 0, all layouts), the E and dotless notations and the special-cased zero; the plain layout with a decimal point by correspondence), JSON-number recogniser witnesses. Compared exactly with "
+         "adapters' text reads back as an equal decimal whenever the scale respects the limit), C17_jsonnum_limit (beyond the limit: an error), C17_jsonnum_limit_iff (the scale-limit test decides acceptance completely: accepted with exactly the parsed pair iff within the limit or the limit is off) and C17_jsonnum_reject (unparsable text refused under every limit), C17_json_grammar (every text the JSON-number adapter emits is inside the JSON number grammar: all Display layouts, every configuration), JSON-number recogniser witnesses. Compared exactly with "
          "the real serde_json round trips (string, Value, json_num, json_num_option incl. null, malformed numbers, limit +-1, token streams of every width), and again with the library rebuilt under other configured scale limits (0 = no limit, 1, 7; thorough more) on numbers around each limit.",
          "PARTIAL: that the glue IS this composition (serde's data model, serde_json::Number's grammar accepting the Display text, integer/float tokens) is tied to the code by the correspondence only. "
          "Trusted: serde/serde_json plumbing, the JSON grammar recogniser, Lean kernel, extractor, harness/driver.",
